@@ -41,7 +41,7 @@ def run(ctx):
         if gerr:
             vlib.violation(ctx, {"broken": gerr}, no_input=True)
         else:
-            n2, d2, sample2 = c06.l2_phase(ctx, exe, random.Random(ctx.seed + 101), 10 if ctx.tier == "quick" else 60)
+            n2, d2, sample2 = c06.l2_phase(ctx, exe, random.Random(ctx.seed + 101), 10 if ctx.tier == "quick" else 60, crate="c01l2")
             stats["generated_level_queries"] = n2
             stats["evaluations"] += n2
             if d2:
